@@ -790,6 +790,13 @@ def run_op_case(op, a, b, negpow, rec, res, terms, metas, corpus=False):
     return expect, outcomes
 
 
+def spread(terms, metas, ctx):
+    """deterministic shuffle, so that the expensive cases (large inverses) are spread evenly over the parallel shards"""
+    order = list(range(len(terms)))
+    random.Random(ctx['seed'] * 31 + 5).shuffle(order)
+    return [terms[i] for i in order], [metas[i] for i in order]
+
+
 def op_level(ctx, res, rng, rec):
     terms, metas = [], []
     kinds = ['i', 'f', 'c']
@@ -833,7 +840,12 @@ def op_level(ctx, res, rng, rec):
         for kb, z in EXPONENTS:
             for ka in kinds:
                 for singular in (False, True):
-                    reps = 1 if (z >= 0 if kb != 'c' else True) else (2 if ctx['tier'] == 'quick' else 6)
+                    negative = kb != 'c' and z < 0
+                    reps = 1 if not negative else (2 if ctx['tier'] == 'quick' else 6)
+                    if negative and ctx['tier'] == 'quick' and n == 4 and (z <= -3 or (ka == 'c' and z <= -2)):
+                        continue        # exact arithmetic on 4x4 float inverses cubed costs seconds per case in Coq
+                    if negative and ctx['tier'] == 'quick' and n == 4:
+                        reps = 1
                     for _ in range(reps):
                         if singular:
                             a = gen_singular(rng, n, ka if ka != 'f' else rng.choice(['i', 'f']))
@@ -850,7 +862,8 @@ def op_level(ctx, res, rng, rec):
     res.distribution['operator_cases_by_op'] = hist
     res.distribution['square_matrix_power_cases'] = npow
     res.samples.append({'operator_case': metas[len(metas) // 2]})
-    n, failing, errors = core.eval_agreement('c14_op', HEADER, 'op_case', terms, shard=max(200, len(terms) // 14 + 1),
+    terms, metas = spread(terms, metas, ctx)
+    n, failing, errors = core.eval_agreement('c14_op', HEADER, 'op_case', terms, shard=len(terms) // 16 + 1,
                                              case_type='bool * binop * val * val * inv_tab * list obs')
     res.programs += n
     res.corr_errors += errors
@@ -1273,7 +1286,8 @@ def formula_level(ctx, res, rng, rec):
                              'formula_chains': n_chain, 'formula_random_trees': n_tree, 'formula_array_literals': n_lit})
     res.samples.append({'formula_case': metas[len(metas) // 3]})
     res.samples.append({'formula_case': metas[-7]})
-    n, failing, errors = core.eval_agreement('c14_expr', HEADER, 'expr_case', terms, shard=max(150, len(terms) // 14 + 1),
+    terms, metas = spread(terms, metas, ctx)
+    n, failing, errors = core.eval_agreement('c14_expr', HEADER, 'expr_case', terms, shard=len(terms) // 16 + 1,
                                              case_type='bool * expr * inv_tab * obs')
     res.programs += n
     res.corr_errors += errors
